@@ -262,13 +262,14 @@ def run(rep, facts):
             continue
         a0 = ir.peel(sel[0][2][0])
         a1 = sel[0][2][1]
-        is_preamble = any((x[0] == 'call' and x[1].endswith("parse_request")) or
-                          (x[0] == 'agg' and x[1] in ('coroutine', 'closure') and "Token::parse_request" in F.norm(str(x[2]))) for x in ir.walk(a1))
+        pre = common.preamble_fns(facts)
+        is_preamble = any((x[0] == 'call' and x[1] in pre) or
+                          (x[0] == 'agg' and x[1] in ('coroutine', 'closure') and F.norm(str(x[2])).split("::{closure")[0] in pre) for x in ir.walk(a1))
         if a0[0] == 'field' and a0[2] == 'stop_fut' and is_preamble:
             rep.ok("R14.4", "run/select-args", "select(self.stop_fut, preamble) — the stop listener is polled first", sn.loc())
         else:
             rep.violation("R14.4", "run/select-args", "select arguments are (%s, %s); the stop listener must come first and the second must be the preamble phase" % (ir.show(a0)[:60], ir.show(a1)[:60]), sn.loc())
-        if not f.body.npath.startswith("async_io::Token::parse_request"):
+        if f.body.npath.split("::{closure")[0] not in pre:
             rep.violation("R14.4", "run/select-component", "the cancellable component is %s" % f.body.npath, sn.loc())
     bad = 0
     for n in gr.all_nodes():
